@@ -520,7 +520,7 @@ func c39RunCase(rg *c39Rig, c c39Case) (clause string, o c39Obs, err error) {
 		return "", o, fmt.Errorf("dial: %v", err)
 	}
 	defer cli.Close()
-	cli.Timeout = 300 * time.Second
+	cli.Timeout = 45 * time.Second // per packet read; a reply that never ends (missing EOF) shows up as an I/O error
 	rg.mu.Lock()
 	cc := c
 	rg.cur = &cc
@@ -620,9 +620,23 @@ func (rn *c39Runner) run(c c39Case) (string, error) {
 	if _, exact := c39ExpectedExact(c); !exact {
 		return "", fmt.Errorf("row generator cannot hit the byte total of this case exactly")
 	}
-	clause, o, err := c39RunCase(rn.rg, c)
-	if err != nil {
-		return "", err
+	var clause string
+	var o c39Obs
+	var err error
+	for attempt := 0; ; attempt++ {
+		clause, o, err = c39RunCase(rn.rg, c)
+		if err != nil {
+			return "", err
+		}
+		// Gaea gives up obtaining a backend connection after 2 s of wall clock; on a stalled
+		// machine that says nothing about the property: run the case again
+		if !c39PoolTimeout(o.ErrMsg) {
+			break
+		}
+		rn.rec.Count("cases.retried_after_pool_timeout", 1)
+		if attempt == 2 {
+			return "", fmt.Errorf("backend connection pool timed out three times in a row: %s", o.ErrMsg)
+		}
 	}
 	rn.memo[c] = clause
 	rn.obs[c] = o
@@ -644,6 +658,10 @@ func (rn *c39Runner) run(c c39Case) (string, error) {
 		rn.rec.Nontrivial(c.key())
 	}
 	return clause, nil
+}
+
+func c39PoolTimeout(msg string) bool {
+	return strings.Contains(msg, "create resource failed") || strings.Contains(msg, "context deadline exceeded") || strings.Contains(msg, "resource pool timed out")
 }
 
 // c39Shrink greedily moves every feature towards its simplest value while the same clause
